@@ -164,6 +164,35 @@ def figure_level(ctx, rng, d, ds, ems, polys, centres, gdims, shape, case):
             plt.close(f_)
 
 
+def wide_cells(n):
+    """Cells wider than half a turn in the units of their x coordinate, with corners at negative x: zonal bands of a global
+    grid (one longitude cell with stored bounds -180 .. 180), and a mesh in projected metres straddling x = 0.  The patch of a
+    cell is its outline, whatever its size."""
+    if n == 6:
+        lat = numpy.array([-30.0, 0.0, 30.0, 60.0])
+        ds = xarray.Dataset({
+            'lat_bnds': (('lat', 'nv'), numpy.stack([lat - 15.0, lat + 15.0], axis=1)),
+            'lon_bnds': (('lon', 'nv'), numpy.array([[-180.0, 180.0]])),
+        }, coords={
+            'lat': ('lat', lat, {'standard_name': 'latitude', 'units': 'degrees_north', 'bounds': 'lat_bnds'}),
+            'lon': ('lon', numpy.array([0.0]), {'standard_name': 'longitude', 'units': 'degrees_east', 'bounds': 'lon_bnds'}),
+        }, attrs={'Conventions': 'CF-1.8'})
+        return gen.DS('cf1d', ds, {'label': 'cf1d 4x1 zonal bands, longitude cell -180..180', 'kinds': {'face': ['lat', 'lon']},
+                                  'lat': lat.tolist(), 'lon': [0.0]})
+    nodes = [(-300.0, 0.0), (-50.0, 0.0), (250.0, 0.0), (-300.0, 200.0), (-50.0, 200.0), (250.0, 200.0), (400.0, 100.0)]
+    faces = [[0, 1, 4, 3], [1, 2, 5, 4], [2, 6, 5, -1]]
+    ds = xarray.Dataset({
+        'Mesh2': ((), numpy.int32(0), {'cf_role': 'mesh_topology', 'topology_dimension': 2, 'node_coordinates': 'Mesh2_node_x Mesh2_node_y',
+                                       'face_node_connectivity': 'Mesh2_face_nodes'}),
+        'Mesh2_node_x': ('nMesh2_node', numpy.array([p[0] for p in nodes]), {'standard_name': 'projection_x_coordinate', 'units': 'm'}),
+        'Mesh2_node_y': ('nMesh2_node', numpy.array([p[1] for p in nodes]), {'standard_name': 'projection_y_coordinate', 'units': 'm'}),
+        'Mesh2_face_nodes': (('nMesh2_face', 'nMaxMesh2_face_nodes'), numpy.array(faces, dtype='i4'),
+                             {'cf_role': 'face_node_connectivity', 'start_index': numpy.int32(0), '_FillValue': numpy.int32(-1)}),
+    }, attrs={'Conventions': 'UGRID-1.0'})
+    return gen.DS('ugrid', ds, {'label': 'ugrid 3 faces in projected metres straddling x = 0, cells 250 .. 300 wide',
+                                'kinds': {'face': ['nMesh2_face'], 'node': ['nMesh2_node']}})
+
+
 def other_grid_leg(ctx, axes):
     """Variables that live on another grid of the dataset (mesh nodes or edges, the left / back / node grids of an Arakawa C
     dataset) have no value per cell: the patches and the arrows are those of the cells, so such a variable is refused - and is
@@ -390,6 +419,9 @@ def run(ctx):
                 nodes += [(x + 16 * m_, y) for x, y in ring]
                 faces.append(list(range(base, base + sides)))
             d = gen.ugrid(rng, mesh=(nodes, faces), invalid=False, supplied=set())
+            fam = None
+        if n in (6, 11):
+            d = wide_cells(n)
             fam = None
         # every other round has a self-intersecting cell (dropped by the convention: a cell without geometry) in the
         # conventions that store their cell corners
